@@ -565,7 +565,9 @@ struct Ctx<'a> {
     in_look: bool,
 }
 
-const LITS: &[char] = &['a', 'a', 'a', 'b', 'b', 'c', 'é', '-', '1'];
+// the last two fold, case-insensitively, to a character with a shorter UTF-8 encoding (KELVIN SIGN
+// -> k, LONG S -> s): byte lengths of a literal and of what it matches differ
+const LITS: &[char] = &['a', 'a', 'a', 'b', 'b', 'c', 'é', '-', '1', 'a', 'b', '\u{212a}', '\u{17f}'];
 const CLASSES: &[&str] = &["[ab]", "\\w", "\\d", "[^a]", "[a-c]", "\\s", "[é1]", "\\W", "\\S", "\\h", "\\p{L}", "[^\\n]", "(?s:.)"];
 const ANCHORS: &[&str] = &["^", "$", "\\b", "\\B", "\\A", "\\z", "(?m:^)", "(?m:$)", "\\Z", "\\<", "\\>"];
 
@@ -1060,7 +1062,7 @@ pub fn gen_pattern(rng: &mut Rng, cfg: &GenCfg) -> Node {
 
 // 1-, 2-, 3- and 4-byte characters, among them some whose last byte is 0xBF or 0x80 (the ends of
 // the continuation-byte range)
-const TEXT_ALPHA: &[char] = &['a', 'a', 'a', 'a', 'a', 'b', 'b', 'b', 'c', 'é', 'é', '\n', '-', '1', '日', '😀', 'ÿ', '¿', 'À', '\u{7ff}', '\u{10ffff}', 'A', 'B', 'É'];
+const TEXT_ALPHA: &[char] = &['a', 'a', 'a', 'a', 'a', 'b', 'b', 'b', 'c', 'é', 'é', '\n', '-', '1', '日', '😀', 'ÿ', '¿', 'À', '\u{7ff}', '\u{10ffff}', 'A', 'B', 'É', 'k', 's', '\u{212a}'];
 
 /// Extra text length allowed in the thorough tier (set once, before any job runs).
 static TEXT_BONUS: std::sync::atomic::AtomicUsize = std::sync::atomic::AtomicUsize::new(0);
@@ -1160,6 +1162,8 @@ pub fn text_shrinks(s: &str) -> Vec<String> {
 /// exercise every instruction of the VM). Used alongside the generated patterns.
 pub const CORPUS: &[&str] = &[
     // plain literals (delegated as a whole; where a literal shortcut would sit)
+    "\u{212a}",
+    "\u{17f}-",
     "a",
     "ab",
     "é",
